@@ -4,7 +4,7 @@ CFG = {
     "extractors": ["C09"],
     "drivers": ["C09"],
     "trivial_prefix": (),
-    "rule": "dec: every printable ASCII byte, other scripts, raw bytes 0x80-0xFF, all C0, ESC+byte, SS3+byte, CSI reports over a "
+    "rule": "e2e: every 3rd (quick) / 4th (thorough) dec case injected into a real Vaxis on the fake console, Key read from Events(); dec: every printable ASCII byte, other scripts, raw bytes 0x80-0xFF, all C0, ESC+byte, SS3+byte, CSI reports over a "
             "number grid (0-40, 32-127, 57340-57460, other scripts) x finals x 15 field combinations x modifier masks (sampled quick / "
             "all 256 thorough), parameterless CSI, 27;m;k~, raw CSI fuzz incl. 2^31+ parameters; mat: chord sample x related binding "
             "runes x all 256 masks (+ a 9-bit mask); mstr/str: own String(), case/ordering variants, random binding strings, every "
